@@ -20,8 +20,13 @@ IMPORTS = IMPORTS + ["SodiumModel.Properties.C08Core", "SodiumModel.Properties.C
 THEOREMS = THEOREMS + vcore.theorems_in("SodiumModel/Properties/C08Simd.lean", ['words256_get', 'words128_get', 'words512_get', 'words_regs', 'regs_words', 'memcpy_state_eq', 'avx2_fBlaMka', 'ssse3_fBlaMka', 'avx512f_muladd', 'avx2_rotations', 'ssse3_rotations', 'avx512f_rotations', 'avx2_G', 'avx2_DIAGONALIZE_1', 'avx2_DIAGONALIZE_2', 'avx2_BLAKE2_ROUND_1', 'avx2_BLAKE2_ROUND_2', 'ssse3_BLAKE2_ROUND', 'avx512f_BLAKE2_ROUND_words', 'reference_loops', 'avx2_loop_steps', 'ssse3_loop_steps', 'avx512f_loop_steps', 'blake2_rounds_eq_ref', 'avx2_fill_block', 'avx2_fill_block_with_xor', 'ssse3_fill_block', 'ssse3_fill_block_with_xor', 'avx512f_fill_block', 'avx512f_fill_block_with_xor', 'avx2_fill_block_is_rfc9106', 'generate_addresses_eq_ref', 'fill_segment_avx2_eq_ref', 'fill_segment_ssse3_eq_ref', 'fill_segment_avx512f_eq_ref', 'fill_segment_avx2_spec', 'segOK_all', 'argon2_ctx_core_simd_spec', 'argon2_hash_model_simd_spec', 'argon2_hash_simd_eq_ref', 'crypto_pwhash_simd_eq_ref', 'crypto_pwhash_str_simd_eq_ref', 'crypto_pwhash_str_verify_simd_eq_ref', 'crypto_pwhash_simd_is_rfc9106', 'crypto_pwhash_avx2_is_rfc9106', 'crypto_pwhash_ssse3_is_rfc9106', 'crypto_pwhash_avx512f_is_rfc9106', 'driver_primsAvx2_eq', 'driver_prims_agree'], "Sodium.C08Simd")
 
 
+IMPORTS = IMPORTS + ["SodiumModel.Properties.C08ScryptSse"]
+THEOREMS = THEOREMS + vcore.theorems_in("SodiumModel/Properties/C08ScryptSse.lean", ['shuf_getD', 'rowS_iff_shuf', 'sse_two_rounds_eq_spec', 'sse_salsa20_8_eq_spec', 'sse_salsa20_8_eq_ref', 'sse_layout', 'sse_layout_inv', 'sse_load_block', 'SALSA20_8_XOR_spec', 'sse_blockmix_salsa8_eq_spec', 'sse_blockmix_salsa8_eq_ref', 'sse_blockmix_salsa8_xor_eq_spec', 'sse_integerify_eq_ref', 'sse_integerify_eq_spec', 'sse_xor_return_is_integerify', 'sse_smix_loops_eq_spec', 'sse_smix_parts', 'sse_smix_loops_eq_ref', 'sse_smix_load_eq_spec', 'sse_smix_steps_1_to_9', 'stored_spec', 'wordsLE_eq_spec', 'sse_smix_eq_spec', 'ref_smix_eq_spec', 'sse_smix_eq_ref', 'hmac_laws', 'escrypt_kdf_sse_eq_spec', 'escrypt_kdf_nosse_eq_spec', 'escrypt_kdf_sse_eq_nosse', 'escrypt_kdf_sse_sha256', 'escrypt_kdf_nosse_sha256', 'pow2_and', 'kdfSpec_pick', 'crypto_pwhash_scrypt_sse_eq_spec', 'crypto_pwhash_scrypt_ref_eq_spec'], "Sodium.C08ScryptSse")
+
+
 def tie_b(ctx):
     vcore.simd_check_script(ctx, "argon2")
+    vcore.simd_check_script(ctx, "scryptsse")
     return []
 
 FINGERPRINTS = "C08"     # Tie B: pinned source text of the transcribed Argon2 / scrypt reference code (tools/fingerprint.py)
